@@ -14,6 +14,30 @@ ASSUMPTIONS = [
 ]
 
 
+def operand_sweep():
+    R = range(8)
+    out = []
+    for m in ("add", "and"):
+        out.append((0, "".join(f"{m} r{d} r{a} r{b}\n" for d in R for a in R for b in R)))
+        out.append((0, "".join(f"{m} r{d} r{a} #{i}\n" for d in R for a in R for i in range(-16, 16))))
+    out.append((0, "".join(f"not r{d} r{a}\n" for d in R for a in R) + "".join(f"jmp r{a}\njsrr r{a}\n" for a in R) + "ret\nrti\n"
+                + "".join(f"trap x{v:X}\n" for v in range(256)) + "getc\nout\nputs\nin\nputsp\nhalt\nputn\nreg\n"))
+    for m in ("ldr", "str"):
+        out.append((0, "".join(f"{m} r{d} r{a} #{o}\n" for d in R for a in R for o in range(-32, 32))))
+    out.append((1, "".join(f"push r{a}\npop r{a}\n" for a in R) + "rets\n"))
+    # `call` takes a label only: every distance of its 10-bit field through 1,023 calls around one label
+    out.append((1, "call mid\n" * 512 + "mid halt\n" + "call mid\n" * 511))
+    out.append((0, "jsr mid\n" * 1024 + "mid halt\n" + "jsr mid\n" * 1023))
+    out.append((0, "ld r3 mid\n" * 256 + "mid halt\n" + "st r5 mid\n" * 255))
+    # literal PC offsets: the statement index must stay >= the offset's reach, so each form is preceded by padding
+    for m in ("br", "brn", "brz", "brp", "brnz", "brnp", "brzp", "brnzp"):
+        out.append((0, ".blkw #300\n" + "".join(f"{m} #{o}\n" for o in range(-256, 256))))
+    for m in ("ld", "ldi", "lea", "st", "sti"):
+        out.append((0, ".blkw #300\n" + "".join(f"{m} r{d} #{o}\n" for d in R for o in range(-256, 256))))
+    out.append((0, ".blkw #1100\n" + "".join(f"jsr #{o}\n" for o in range(-1024, 1024))))
+    return out
+
+
 def gen_cases(tier, seed):
     rnd = random.Random(seed)
     n = 1500 if tier == "quick" else 100000
@@ -44,6 +68,10 @@ def gen_cases(tier, seed):
         for sp in ("#%d" % v, "x%X" % v, "0x%x" % v, "%d" % v) + (("#-%d" % (65536 - v),) if v >= 32768 else ()):
             cases.append(asmgen.asm_case(0, [(1, f".orig x0\na add r0 r0 #1\n.blkw {sp}\nb .fill xBEEF\n")])); tags.append("blkw-extreme")
             cases.append(asmgen.asm_case(0, [(1, f".orig x0\n.fill {sp}\nhalt\n")])); tags.append("fill-extreme")
+    # EXHAUSTIVE operand sweep: every operand combination of every form without a label operand, and every literal
+    # offset of every PC-relative form (one source per form; the i-th word must be the encoding of the i-th statement)
+    for feat, text in operand_sweep():
+        cases.append(asmgen.asm_case(feat, [(1, text)])); tags.append("operand-sweep")
     for i in range(n):
         stack = rnd.random() < 0.3
         items = asmgen.gen_program(rnd, stack=stack)
@@ -60,11 +88,14 @@ def correspondence(ctx, violations, known_hits):
     profiles = ("debug",) if ctx.tier == "quick" else ("debug", "release")
     r = asmcommon.run_asm_cases(ctx, cases, tags, violations, profiles, aux=AUX,
                                 prop_note="MODEL = SPEC on accepted programs is proved (C01 theorems); an accepted image that differs is a wrong encoding")
+    sweep = sorted(str(x[1:]) for x in r["sigs"] if x[0] == "operand-sweep")
+    if any("'ok'" not in x for x in sweep):
+        violations.append({"kind": "operand-sweep-source-not-accepted", "no_failing_input": True, "outcomes": sweep})
     cli = compile_stage(ctx, violations)
     ctx.cleanup()
     return {
-        "evaluations": r["evaluations"] + cli["compiles"], "real_binary_compile": cli, "distinct_nontrivial": len(r["sigs"]),
-        "rule": "random valid programs over the whole instruction/trap/directive set (labels before/after/on the use, "
+        "evaluations": r["evaluations"] + cli["compiles"], "real_binary_compile": cli, "operand_sweep_outcomes": sweep, "distinct_nontrivial": len(r["sigs"]),
+        "rule": "EXHAUSTIVE operand sweep (every register/immediate/offset6/trap-vector combination of every form without a label operand; every literal offset of every 9-/10-/11-bit PC-relative form: 50k statements); random valid programs over the whole instruction/trap/directive set (labels before/after/on the use, "
                 "literal PC offsets at the field extremes, origins at the 16-bit boundaries, .break placements), each rendered "
                 "in several random layouts (keyword case, r/R, #dec/#unsigned/xHEX/0xHEX/x-HEX/leading zeros/+, "
                 "spaces/tabs/commas/colons/CRLF/FF, comments incl. abutting and multi-byte) plus all-commas, all-colons, "
